@@ -71,6 +71,8 @@ func defaultFocus(prop string) Focus {
 type gen struct {
 	r *rand.Rand
 	f Focus
+	// name the next option definition has to use (families of related names)
+	forceName string
 }
 
 func (g *gen) p(x float64) bool { return g.r.Float64() < x }
@@ -78,9 +80,15 @@ func (g *gen) pick(l []string) string { return l[g.r.Intn(len(l))] }
 
 var namePool = []string{"v", "ver", "verbose", "version", "V", "f", "file", "force", "o", "out", "output", "é", "日本",
 	"x", "y", "z", "n", "num", "name", "l", "list", "m", "map", "i", "int", "inc", "fl", "float", "deb", "debug", "dbg",
-	"q", "quiet", "a", "ab", "abc", "t", "tag", "p", "profile", "é1", "ñ", "ü", "日本語設定", "h", "?"}
+	"q", "quiet", "a", "ab", "abc", "t", "tag", "p", "profile", "é1", "ñ", "ü", "日本語設定", "h", "?",
+	"🚀", "🔥hot", "label-😀", "color", "no-color", "no-v"}
 
-var cmdPool = []string{"cmd", "run", "list", "show", "exec", "wrap", "sub", "get", "set", "c", "v", "file", "log", "db", "helper"}
+var cmdPool = []string{"cmd", "run", "list", "show", "exec", "wrap", "sub", "get", "set", "c", "v", "file", "log", "db", "helper",
+	"añadir", "删除", "é", "🚀go"}
+
+// names long enough for one synopsis entry to exceed a whole help line
+var longPool = []string{"kubernetes-control-plane-version-to-upgrade-to", "a-really-quite-long-option-name-for-the-synopsis-line",
+	"control-plane-version-of-the-target-cluster", "yet-another-name-that-goes-on-for-a-while-längere", "k8s-version-string-accepted-by-the-upgrade"}
 
 var wordPool = []string{"foo", "bar", "baz", "", "a b", "a=b", "k=v=w", "1", "2", "-1", "+5", "010", "1..3", "3..1", "0x10", "1_0",
 	"1.5", "1e3", "1e309", "NaN", "inf", "0x1p-2", " 5", "5 ", "true", "false", "-", "x\ny", "é", "日本語", "hello", "=", "=x", "k=",
@@ -115,6 +123,7 @@ type progInfo struct {
 	help  string
 	noid  int
 	big   bool // a large instance: many options, deeper trees, long argument vectors and bundles
+	deep  bool // a chain of commands five levels deep, argument vectors that walk down it
 }
 
 func (g *gen) kind() int {
@@ -131,6 +140,13 @@ func (g *gen) genOpt(pi *progInfo, n *nodeInfo, used map[string]bool, env *[]Env
 	name := g.pick(namePool)
 	for tries := 0; used[name] && tries < 20; tries++ {
 		name = g.pick(namePool)
+	}
+	long := g.p(0.02)
+	if long {
+		name = g.pick(longPool)
+	}
+	if g.forceName != "" {
+		name, g.forceName = g.forceName, ""
 	}
 	if g.p(g.f.DefErrors) {
 		if g.p(0.5) {
@@ -186,11 +202,14 @@ func (g *gen) genOpt(pi *progInfo, n *nodeInfo, used map[string]bool, env *[]Env
 	}
 	// modifiers, in random order
 	var mods []Mod
-	if g.p(0.45) {
+	if g.p(0.45) || long {
 		na := 1 + g.r.Intn(2)
 		var al []string
 		for i := 0; i < na; i++ {
 			a := g.pick(namePool)
+			if long {
+				a = g.pick(longPool)
+			}
 			if used[a] && !g.p(g.f.DefErrors) {
 				continue
 			}
@@ -263,7 +282,9 @@ func (g *gen) genProgram(c *Case) *progInfo {
 		mode = []int{0, 0, 1, 2}[g.r.Intn(4)]
 	}
 	pi.mode = mode
-	if mode != 0 || g.p(0.2) {
+	// SetMode is called first, or (a legal order too) after everything else was declared
+	modeLate := g.p(0.25)
+	if (mode != 0 || g.p(0.2)) && !modeLate {
 		script = append(script, DefOp{Op: "mode", H: 0, N: mode})
 	}
 	um := []int{0, 0, 1, 2}[g.r.Intn(4)]
@@ -290,13 +311,27 @@ func (g *gen) genProgram(c *Case) *progInfo {
 	}
 	used := map[int]map[string]bool{0: {}}
 	pi.big = g.p(0.06)
+	pi.deep = g.p(0.04)
 	nopts := 1 + g.r.Intn(5)
 	if pi.big {
 		nopts = 6 + g.r.Intn(8)
 	}
+	family := 0
+	if pi.big && g.p(0.3) {
+		// nine or more names sharing a prefix (`--with` is then ambiguous between all of them)
+		family = 9 + g.r.Intn(4)
+		nopts += family
+	}
 	var late []DefOp
+	prevName := ""
 	for i := 0; i < nopts; i++ {
+		if i < family {
+			g.forceName = "with-" + string(rune('a'+i))
+		} else if prevName != "" && !strings.HasPrefix(prevName, "no-") && g.p(0.06) {
+			g.forceName = "no-" + prevName // the negated twin of the previous option
+		}
 		op, oi := g.genOpt(pi, root, used[0], &c.Env)
+		prevName = op.Name
 		if g.p(g.f.NonCanon) {
 			late = append(late, op)
 		} else {
@@ -403,7 +438,7 @@ func (g *gen) genProgram(c *Case) *progInfo {
 				if g.p(0.05) {
 					script = append(script, DefOp{Op: "argfn", H: h, N: g.r.Intn(3)})
 				}
-				if (depth < 2 || (pi.big && depth < 3)) && g.p(0.3) {
+				if (depth < 2 || (pi.big && depth < 3)) && g.p(0.3) || (pi.deep && depth < 4 && i == nc-1) {
 					addCmds(n, depth+1)
 					if g.p(0.35) {
 						// an option declared on a command after its sub-commands exist (it reaches them
@@ -440,13 +475,16 @@ func (g *gen) genProgram(c *Case) *progInfo {
 			script = append(script, DefOp{Op: "fn", H: h, N: h})
 		}
 	}
-	if len(late) > 0 && g.p(0.5) && len(pi.nodes) > 1 {
+	if (len(late) > 0 && g.p(0.5) || g.p(0.15)) && len(pi.nodes) > 1 {
 		// a later NewCommand re-copies options
 		h := len(pi.nodes)
 		pi.nodes = append(pi.nodes, &nodeInfo{h: h, name: "latecmd", parent: 0})
 		root.cmds = append(root.cmds, h)
 		script = append(script, DefOp{Op: "cmd", H: 0, Name: "latecmd"})
 		script = append(script, DefOp{Op: "fn", H: h, N: h})
+	}
+	if (mode != 0 || g.p(0.2)) && modeLate {
+		script = append(script, DefOp{Op: "mode", H: 0, N: mode})
 	}
 	c.Script = script
 	return pi
@@ -506,17 +544,40 @@ func prefixOf(g *gen, s string) string {
 
 // genArgs draws an argument vector aimed at the program.
 func (g *gen) genArgs(pi *progInfo) []string {
+	args, _ := g.genArgsAt(pi)
+	return args
+}
+
+// genArgsAt also returns the command the generator believes the words lead to.
+func (g *gen) genArgsAt(pi *progInfo) ([]string, *nodeInfo) {
 	var args []string
 	cur := pi.nodes[0]
 	n := g.r.Intn(g.f.MaxArgs + 1)
 	if pi.big {
 		n = g.r.Intn(24)
 	}
+	wDesc := 3.8
+	if pi.deep {
+		// walk down the chain: a command name about every other word
+		n = 4 + g.r.Intn(10)
+		wDesc = 4.6
+	}
+	runAt := -1
+	if pi.big && g.p(0.3) {
+		runAt = g.r.Intn(n + 1) // a long run of plain words (a file list) starts here
+	}
 	allCmdNames := []string{}
 	for _, nd := range pi.nodes[1:] {
 		allCmdNames = append(allCmdNames, nd.name)
 	}
 	for len(args) < n {
+		if len(args) >= runAt && runAt >= 0 {
+			runAt = -1
+			for k := 16 + g.r.Intn(6); k > 0; k-- {
+				args = append(args, []string{"f.txt", "src/a.go", "1", "é", "x=y", "zz"}[g.r.Intn(6)])
+			}
+			n = len(args) + 1 + g.r.Intn(4)
+		}
 		w := g.r.Float64() * (6 + g.f.Unknown + g.f.DashDash + g.f.Bytes)
 		switch {
 		case w < 3.2 && len(cur.opts) > 0: // known option
@@ -589,7 +650,7 @@ func (g *gen) genArgs(pi *progInfo) []string {
 					args = append(args, g.valueFor(oi, g.p(0.75)))
 				}
 			}
-		case w < 3.8 && len(cur.cmds) > 0: // descend
+		case w < wDesc && len(cur.cmds) > 0: // descend
 			nd := pi.nodes[cur.cmds[g.r.Intn(len(cur.cmds))]]
 			args = append(args, nd.name)
 			cur = nd
@@ -625,7 +686,7 @@ func (g *gen) genArgs(pi *progInfo) []string {
 			args[i] = "1..3"
 		}
 	}
-	return args
+	return args, cur
 }
 
 // hugeRange reports whether some suffix of the token reads as an ascending int range `a..b` with more
@@ -647,7 +708,7 @@ func hugeRange(tok string) bool {
 }
 
 func (g *gen) genCompLine(pi *progInfo) string {
-	words := g.genArgs(pi)
+	words, cur := g.genArgsAt(pi)
 	for i, w := range words {
 		// COMP_LINE words cannot contain whitespace
 		words[i] = strings.Map(func(r rune) rune {
@@ -662,7 +723,9 @@ func (g *gen) genCompLine(pi *progInfo) string {
 	}
 	// partial last word
 	last := ""
-	cur := pi.nodes[0]
+	if g.p(0.3) {
+		cur = pi.nodes[0]
+	}
 	switch g.r.Intn(8) {
 	case 0:
 		last = ""
@@ -730,6 +793,8 @@ func (g *gen) genCase(id int) *Case {
 	c.Args = g.genArgs(pi)
 	c.Dispatch = g.f.Dispatch
 	c.Help = g.f.Help
+	c.PreEmpty = g.p(0.1)
+	c.Twice = c.Dispatch && g.p(0.15)
 	c.Reparse = !c.Help && !c.Dispatch && g.p(0.5) || (g.f.Prop == "C06" || g.f.Prop == "C12") && g.p(0.3)
 	if c.Reparse {
 		c.Dispatch, c.Help = false, false
